@@ -192,6 +192,74 @@ def api_correspondence(ctx, obs, units):
     return nbad
 
 
+def composed_checks(ctx, obs, label="C17nm", limit=40):
+    """S4 for the COMPOSED model (Model/Cfg_Composed.v: the oracle record instantiated with C03/C04's generated models):
+    (a) the binary64 instance of Model/NM1d.v, run by vm_compute on the recorded cost table of the automatic-period search of this
+        very configuration, must return the implementation's result and evaluation sequence bit for bit (so the recorded oracle
+        answer IS the composed model's);  (b) predictions of the composition theorems on the implementation's values:
+        accepted automatic period: MIN_POSITIVE <= |p| <= L and sign p = sign of the unpoled mismatch (C04_sign_and_bound through
+        C17_period_is_C04); collinear signal: |p| = 2 pi / |dkz| (C04_collinear_root); automatic crystal angle in [0, pi/2]."""
+    from props import c04 as c04mod
+    cases, index = [], {}
+    nbad = 0
+    for o in obs:
+        if o.get("kind") != "cfg" or o["parse"] != "ok":
+            continue
+        orc = o["shadow"]["oracles"]
+        detail = {"config": o["json"], "tags": o["tags"]}
+        tr = orc.get("nm_period_trace")
+        if tr and len(cases) < limit:
+            cid = f"n{o['id']}"
+            cases.append((cid, c04mod.nm_expr_table(dict(tr, result={"x": tr["result"]}))))
+            index[cid] = o
+        st = {s["step"]: s for s in o["shadow"]["steps"]}
+        sp = st.get("optimum_poling_period")
+        z = orc.get("dkz0")
+        problems = []
+        if sp and sp["class"] == "ok" and sp.get("value") and z and is_finite_hex(sp["value"]):
+            p, zz = f64_of_hex(sp["value"]), f64_of_hex(z)
+            L = f64_of_hex(o["cfg"]["crystal"]["length_um"]) * 1e-6
+            ctx.count("composed_period_predictions")
+            if not (2.2250738585072014e-308 <= abs(p) <= L * (1 + 1e-12)):
+                problems.append(f"accepted automatic period {p!r} outside [MIN_POSITIVE, L = {L!r}]")
+            if zz != 0 and (p > 0) != (zz > 0):
+                problems.append(f"sign of the automatic period {p!r} differs from the sign of the unpoled mismatch {zz!r}")
+            sig = o["cfg"]["signal"]
+            collinear = (sig["theta_deg"] is not None and f64_of_hex(sig["theta_deg"]) == 0.0) or \
+                        (sig["theta_external_deg"] is not None and f64_of_hex(sig["theta_external_deg"]) == 0.0 and sig["theta_deg"] is None)
+            if collinear and zz != 0:
+                root = 2 * 3.141592653589793 / abs(zz)
+                if root <= L * (1 - 1e-9) and abs(abs(p) - root) > 1e-6 * root:
+                    problems.append(f"collinear signal: automatic period |p| = {abs(p)!r} is not 2 pi / |dkz| = {root!r}")
+        th = st.get("optimum_theta")
+        if th and th["class"] == "ok" and th.get("value"):
+            t = f64_of_hex(th["value"])
+            ctx.count("composed_theta_predictions")
+            if not (0.0 <= t <= 1.5707963267948966 * (1 + 1e-15)):
+                problems.append(f"automatic crystal angle {t!r} rad outside [0, pi/2]")
+        for pr in problems:
+            nbad += 1
+            ctx.case_failures.append(dict(detail, problem=pr))
+            ctx.violation("S4", "prediction of the composed model (C03/C04 kernels) fails on the implementation: " + pr,
+                          {"kind": "composed_prediction", "what": pr.split(":")[0][:40]}, dict(detail, problem=pr), found_input=False)
+    if cases:
+        imports = ("From Coq Require Import List Bool ZArith Floats.\nFrom SpdVerif Require Import Model.NM1d Proofs.C04_cases.\n"
+                   "Import ListNotations.\nLocal Open Scope float_scope.\n")
+        res = run_compute_cases(ctx, label, imports, "", cases, shards=min(NCPU, len(cases)))
+        ctx.cov["obligations"] += len(cases)
+        for cid, o in index.items():
+            txt = res.get(cid, "")
+            if txt.replace(" ", "").startswith("(true,true"):
+                ctx.cov["discharged"] += 1
+            else:
+                nbad += 1
+                detail = {"config": o["json"], "tags": o["tags"], "model_output": txt[:300]}
+                ctx.case_failures.append(detail)
+                ctx.violation("S4", f"binary64 Nelder-Mead model (Model/NM1d.v) and nelder_mead_1d disagree on the automatic-period search of configuration {o['id']}",
+                              {"kind": "model_mismatch", "what": "nm1d_period_search"}, detail, found_input=False)
+    return nbad
+
+
 def correspondence(ctx, obs, spans, units, label="C17"):
     """S4: model (Coq, Q instance, recorded oracle answers) vs implementation."""
     defs = f"Definition UU : units Q := {cc.units_term(units)}.\nDefinition MP : Q := {cc.qh(units['min_positive'])}.\n"
@@ -262,7 +330,7 @@ def run(ctx):
     for m in msgs:
         ctx.proof_failures.append(("Gen/Config*.v", "translator", m))
     # Model/ConfigCheck.vo (the executable side of S4) is an explicit build target: S4 runs whenever Props and Model compile
-    proved = (not msgs) and prove(ctx, "C17", extra_targets=["Model/ConfigCheck.vo"])
+    proved = (not msgs) and prove(ctx, "C17", extra_targets=["Model/ConfigCheck.vo", "Proofs/C04_cases.vo"])
     # historical records of repaired defects (flags pinned to their old values); no stage depends on them
     okf, ff, _ = coq_build(ctx, ["Findings/C17_F7.vo"])
     if not okf:
@@ -282,6 +350,8 @@ def run(ctx):
         if o.get("kind") == "cfg" and o["parse"] == "ok":
             ctx.sample({"config": o["json"], "outcome": o["real"]["class"], "message": o["real"]["msg"][:80], "location": o["real"]["loc"]}, limit=5)
     nbad = correspondence(ctx, obs, spans, units) + api_correspondence(ctx, obs, units)
+    if os.path.exists(os.path.join(COQ, "Proofs", "C04_cases.v")):
+        nbad += composed_checks(ctx, obs, limit=40 if ctx.tier == "quick" else 400)
     oracle(ctx, obs, spans, windows)
     api_oracle(ctx, obs)
     if (not proved or nbad) and not any(v["found_input"] for v in ctx.violations):
@@ -306,6 +376,9 @@ def run(ctx):
         "spectrum/rate/HOM calls finite": "validated_only (small in-window grids on constructed setups)"}
     return finish(ctx, assumptions=[
         "L4 structural model: numerical kernels (Snell maps, simplex searches, delta k, idler angle, waist position) are oracles; their "
-        "answers are recorded from the implementation through the public API and the model's outcome/fields/trace are compared per input",
+        "answers are recorded from the implementation through the public API and the model's outcome/fields/trace are compared per input; "
+        "COMPOSED (Model/Cfg_Composed.v): the oracle record instantiated over the reals with C03/C04's generated models (optimum idler, "
+        "auto period, auto angle, Nelder-Mead), contracts proved for that instance; what remains assumed: the Snell inverse (C13), binary64 vs "
+        "reals (a NaN cost makes argmin fail: F7b), the index function outside the built-in crystals' windows",
         "panic sites: the generator checks the number of unwrap/expect/assert sites in the functions on the conversion path against the model's",
         "binary64 overflow/underflow not modelled; finiteness clauses are validated on the stream"])
